@@ -57,6 +57,7 @@ CONSTANTS
     Outcomes,         \* outcomes of an execution that is not killed: subset of {"ok", "fail", "rexh"}
     NotifyBy,         \* the producers finish at the latest in the gap that follows this instant
     MaxOutputs,       \* number of times new producer output may appear
+    MaxFaults,        \* number of canConsume() checks during which the producer's directory cannot be listed
     AllowExternalKill,\* somebody else may call kill() once
     AllowPreNotify,   \* the notification may arrive before run()
     AllowWindow,      \* environment events may fall into the WINDOW
@@ -128,7 +129,8 @@ HInit == [anyOut   |-> FALSE,  \* producer output exists
           late     |-> FALSE,  \* an execution was started after succAfter or after the kill delay expired
           bad      |-> FALSE,  \* an execution was started while nothing was consumable
           fired    |-> FALSE,  \* the kill delay expired
-          ext      |-> FALSE]  \* kill() was called from outside
+          ext      |-> FALSE,  \* kill() was called from outside
+          nFault   |-> 0]      \* checks of the producer's directory that failed with a filesystem error
 
 Consumable(hh, mode) == mode = "earlierStage" \/ hh.anyOut
 
@@ -136,6 +138,7 @@ HOutput(hh, s2)  == [hh EXCEPT !.anyOut = TRUE, !.lastOut2 = s2, !.nOut = @ + 1]
 HNotify(hh, t)   == [hh EXCEPT !.pdone = TRUE, !.tN = t]
 HTimer(hh)       == [hh EXCEPT !.fired = TRUE]
 HExt(hh)         == [hh EXCEPT !.ext = TRUE]
+HFault(hh)       == [hh EXCEPT !.nFault = @ + 1]
 HLaunch(hh, t, mode) ==
     [hh EXCEPT !.everL = TRUE, !.nL = @ + 1, !.lastL = t, !.lastSaw = hh.pdone,
                !.nAfter = IF hh.pdone THEN @ + 1 ELSE @,
@@ -250,13 +253,30 @@ Begin ==
 (* harmful in exactly one case: there is no retry left -- the attempt then counts as the failed final attempt *)
 (* and the engine stops without ever looking at that output.  That is what the code does; here it is the      *)
 (* deviation "stale-check" and the specified behaviour is to look again.                                      *)
+(*                                                                                                            *)
+(* canConsume() (only called while the latch _consume is False) lists the working directory of a same-stage   *)
+(* producer.  The outcome of that CHECK is "has-output", "no-output" or "raises": the listing fails with a     *)
+(* transient filesystem error (OSError -> FilesystemInconsistencyError, caught by EngineTaskController: "will  *)
+(* assume canConsume=<latch>").  A check that raises has seen nothing: the latch must stay False, so the       *)
+(* engine cannot launch before a check that actually saw output.  Faults are explored for the checks made      *)
+(* before any output exists, with producers for which the earlier output check does not list the directory     *)
+(* itself (FaultModes); at most MaxFaults of them.                                                             *)
+FaultModes == {"plainProducer", "noCheck"}
 Sample ==
     /\ pc \in {"window", "sample"}
-    /\ LET c2 == consume \/ Consumable(h, cfg.mode)
+    /\ LET lists == ~consume /\ cfg.mode # "earlierStage"                          \* canConsume() lists the producer's directory
+           truth == IF h.anyOut THEN "has-output" ELSE "no-output"
+           mayFault == lists /\ cfg.mode \in FaultModes /\ ~h.anyOut /\ h.nFault < MaxFaults
+           outcomes == IF ~lists THEN {"-"} ELSE IF mayFault THEN {truth, "raises"} ELSE {truth}
            stale == pdone /\ ~isNew /\ pc = "window" /\ h.lastOut2 = 2 * now     \* a second look would see new output
            mustLook == stale /\ retries = 0 /\ "stale-check" \notin Deviations
            looks == IF ~stale THEN {FALSE} ELSE IF mustLook THEN {TRUE} ELSE {TRUE, FALSE}
-       IN \E look \in looks :
+       IN \E look \in looks, check \in outcomes :
+          LET c2 == consume \/ cfg.mode = "earlierStage" \/ check = "has-output"
+              h1 == IF check = "raises" THEN HFault(h) ELSE h
+              s1 == IF MaxFaults > 0 /\ lists /\ cfg.mode \in FaultModes
+                    THEN Rec(sched, [a |-> "check", s |-> IF check = "raises" THEN 1 ELSE 0]) ELSE sched
+          IN
           /\ consume' = c2
           /\ pdwis' = pdone
           /\ dev' = IF stale /\ ~look /\ retries = 0 THEN dev \cup {"stale-check"} ELSE dev
@@ -264,13 +284,14 @@ Sample ==
              THEN \E d \in Durations :
                     /\ lastL' = now /\ proc' = "running" /\ procKilled' = FALSE /\ procRc' = "-"
                     /\ didExec' = TRUE /\ pc' = "exec" /\ wakeAt' = now + d
-                    /\ h' = HLaunch(h, now, cfg.mode)
-                    /\ sched' = Rec(sched, [a |-> "task", s |-> d])
+                    /\ h' = HLaunch(h1, now, cfg.mode)
+                    /\ sched' = Rec(s1, [a |-> "task", s |-> d])
                     /\ obs' = Rec(IF stale THEN Rec(obs, [k |-> "choice", t |-> now, saw |-> look]) ELSE obs,
                                   [k |-> "launch", t |-> now, saw |-> pdone])
              ELSE /\ didExec' = FALSE /\ pc' = "decide"
+                  /\ h' = h1 /\ sched' = s1
                   /\ obs' = IF stale THEN Rec(obs, [k |-> "choice", t |-> now, saw |-> look]) ELSE obs
-                  /\ UNCHANGED <<lastL, proc, procKilled, procRc, wakeAt, h, sched>>
+                  /\ UNCHANGED <<lastL, proc, procKilled, procRc, wakeAt>>
     /\ UNCHANGED <<cfg, now, retries, cancel, suicide, kc, pdone, timer2, lastF, begun, isNew>>
 
 (* my_process.wait() returns *)
